@@ -293,13 +293,17 @@ def observe_c13(entry: dict, seed: int, opts: dict) -> dict:
         o['hist'].append(row)
       stages.append(['unfiltered_after_filtered', _json(value)])
     else:
+      iterated = False
       for f in OTHER_FILTERS:                     # filtered uses after the unfiltered one
         tf = pg.template(value, where_fn(f))
         tf.dna_spec()
         stages.append(['template_where_' + f, _json(value)])
+        if iterated:
+          continue
         try:
           for k, _ in enumerate(pg.iter(value, where=where_fn(f))):
-            if k >= 3:
+            iterated = True
+            if k >= 2:
               break
         except ValueError:
           pass                                    # constant under this filter
